@@ -65,7 +65,7 @@ CHECKS.update({
 
 CHECKS.update({
  "C03": dict(level="model_checking", ref="3 C03", technique="exhaustive input-shape enumeration (E-SHAPE) of restriction profiles x grades x trains x path-extension schedules, each run on a real SpeedLimitTrainSim stepped with the real step(); safety oracle on every step; whole-path runs re-run through walk()",
-   text="Every 3-zone restriction profile over the cut-point grid (incl. all short fast windows), head/tail-end, four grade shapes, two trains and two departure times is simulated whole-path, link-by-link at three extension thresholds, through the real walk_timed_path with every single-entry delay, and through make_est_times; every step is checked for speed >= 0, speed <= reference posted limit at the front position and <= the simulator's own limit, target <= limit; the run must end at rest inside the stopping window with Ok or a descriptive Err - a panic (the in-code overspeed assert) is a violation.",
+   text="Every 3-zone restriction profile over the cut-point grid (incl. all short fast windows), head/tail-end, six grade shapes (incl. steep downgrades easing off), three trains (incl. 60 loaded cars behind one locomotive, also with a 10 s friction-brake ramp) and two departure times is simulated whole-path, link-by-link at three extension thresholds, through the real walk_timed_path with every single-entry delay, and through make_est_times; every step is checked for speed >= 0, speed <= reference posted limit at the front position and <= the simulator's own limit, target <= limit; the run must end at rest inside the stopping window with Ok or a descriptive Err - a panic (the in-code overspeed assert) is a violation.",
    note="reference limit = C13 reference (pointwise min, tail-end extended by train length); 3 km routes on a fixed cut-point grid; the known overspeed-assert defect is listed in KNOWN_FINDINGS.txt under four keys of one input class"),
 })
 for k in ("C07","C11","C12"):
